@@ -8,6 +8,7 @@ from vlib.model import Alias, Arr, Base, Enum, File, Message, Ref, file_of, iter
 from vlib.monitors import contracts
 from vlib.sut_c import c_size_macro, c_storage
 from props import pycommon
+from props import gocommon
 from props.gocommon import go_field, go_type_name
 
 
@@ -327,6 +328,15 @@ def judge_message(ctx, go, gf, exp, g, m, sizes, size_m, mods, wit):
         def nv(k, v):
             return norm(v) if k in ("conv", "inner_conv") and isinstance(v, str) else v
 
+        # a conversion through an alias of an imported file names the element type by the name that THAT file binds (C10 known
+        # finding go-transitive-import-reference, judged there): such a qualifier is compared without its package
+        inner_names = gocommon.names_of_transitive_imports(g)
+        for gc, wc in zip(got, want[tbl]):
+            for k in ("conv", "inner_conv"):
+                gv, wv = gc.get(k), wc.get(k)
+                if isinstance(gv, str) and isinstance(wv, str) and "." in gv and "." in wv and gv.split(".")[0] != wv.split(".")[0] and gv.split(".")[0] in inner_names:
+                    res.count("excluded_known_C10_transitive_import")
+                    gc[k] = wv.split(".")[0] + "." + gv.split(".", 1)[1]
         same = len(got) == len(want[tbl]) and all(all(k in gc and nv(k, gc[k]) == nv(k, v) for k, v in wc.items()) for gc, wc in zip(got, want[tbl]))
         if not same:
             res.violation(f"go-accessor-table:{tbl}", f"{m.name}.{tbl}: cases {[{k: v for k, v in c.items() if k != 'line'} for c in got]} expected {want[tbl]}", w)
